@@ -1580,7 +1580,7 @@ private:
                                                  << " --> " << v + 1 << " from "
                                                  << w.get() << " to ";);
 	// REVISIT(PERFORMANCE): extra call to lookup
-	Wt tightened_w = 2 * (Wt)std::floor((float)w.get() / 2);
+	Wt tightened_w = w.get() - Wt(1); // w is odd: 2*floor(w/2)
 	m_graph.set_edge(v, tightened_w, v + 1);
         CRAB_LOG("octagon-integer", crab::outs() << tightened_w << "\n";);
       }
@@ -1590,7 +1590,7 @@ private:
                                                  << " --> " << v + 1 << " from "
                                                  << w.get() << " to ";);
 	// REVISIT(PERFORMANCE): extra call to lookup
-	Wt tightened_w = 2 * (Wt)std::floor((float)w.get() / 2);
+	Wt tightened_w = w.get() - Wt(1); // w is odd: 2*floor(w/2)
 	m_graph.set_edge(v, tightened_w, v - 1);
         CRAB_LOG("octagon-integer", crab::outs() << tightened_w << "\n";);
       }
